@@ -51,6 +51,9 @@ Snap(t, e) ==
   /\ \A s \in Sessions : Files(s) = Cardinality({i \in 1..Len(e.files) : e.files[i] = s})
   /\ Pairs(e.lsn) = UNION {{<<s, p>> : p \in Lsns(s)} : s \in Sessions}
   /\ SessOk(e)
+  \* no task of the server outlives the session it belongs to, and closing the server completes (C12)
+  /\ Set(e.zomb) \subseteq Set(e.gated)
+  /\ (e.closing /\ e.gated = <<>> => e.closeok)
   /\ (e.hastree => TreeOf(e.tree) = tree)
   /\ UNCHANGED <<tree, ss, uused, used, pool, table, srv>>
 
